@@ -20,7 +20,8 @@ from chartparse.metadata import Player2Instrument
 from harness.h_integrated import env
 from harness.h_metadata import _patches as _md_patches
 
-VARIANT = H.part("VF_E2E", 0)      # which optional lines the chart carries (see _chart_lines)
+VARIANT = H.part("VF_E2E", 0)      # which optional lines the chart carries (bit 1: [Song] numbers, 2: signature+anchors, 4: Player2)
+SL = H.part("VF_E2E_SL", -1)       # partition: [Song] section first (0) / last (1); -1: symbolic
 
 
 class _TokText(str):
@@ -76,6 +77,7 @@ def chart_e2e(R: int, off: int, dif: int, pv: int, tb: int, tst: int, gt: int, n
     """
     pre: R >= 1 and off >= 0 and dif >= 0 and pv >= 0 and au >= 0
     pre: tb > 0 and tst >= 0 and gt >= 0 and 0 <= n0 < n1 and u0 >= 0 and sps >= 0 and spl >= 0
+    pre: SL < 0 or song_last == (SL == 1)
     post: _
     """
     song = [_md_line("Name", "n", "str"), _md_line("Resolution", R)]
